@@ -1,6 +1,7 @@
 import Ach.Props.C03Code
 import Ach.Props.C03IATCode
 import Ach.Props.C03IATSample
+import Ach.Props.AcceptedADV
 /-!
 # A batch whose control no longer matches its entries is refused (C04), standard and IAT, on the translated code
 
@@ -54,6 +55,38 @@ theorem changed_credit_amount_rejected (c : Ctx) (B : StdBatch c) (hdef : defaul
   apply tampered_standard_batch_rejected c B hdef
   intro h
   exact hne (h.2.2.1.trans hsum)
+
+open Ach.Props.AcceptedADV Ach.Props.AcceptedHash in
+/-- C04, ADV batches: if a total, the entry hash or (without `UnequalAddendaCounts`) the entry/addenda count of the ADV
+control differs from the sum over the advices, the translated `Batch.verify()` does not return nil — any number of advices -/
+theorem tampered_adv_batch_rejected (c : Ctx) (hp cp p : String) (n : Nat) (tc am : Nat → Int) (r : Nat → Str)
+    (hv cnt : Nat → Int) (tcr tdb e k : Int)
+    (hH : lookup c.fields (joinPath c.recv "Header") = .ref hp)
+    (hsec : lookup c.fields (joinPath hp "StandardEntryClassCode") = .str ['A', 'D', 'V'])
+    (hC : lookup c.fields (joinPath c.recv "ADVControl") = .ref cp)
+    (hcr : lookup c.fields (joinPath cp "TotalCreditEntryDollarAmount") = .int tcr)
+    (hdb : lookup c.fields (joinPath cp "TotalDebitEntryDollarAmount") = .int tdb)
+    (he : lookup c.fields (joinPath cp "EntryHash") = .int e)
+    (hk : lookup c.fields (joinPath cp "EntryAddendaCount") = .int k)
+    (hE : lookup c.fields (joinPath c.recv "ADVEntries") = .lst p n)
+    (ht : ∀ i, i < n → lookup c.fields (joinPath (elemPath p i) "TransactionCode") = .int (tc i))
+    (ham : ∀ i, i < n → lookup c.fields (joinPath (elemPath p i) "Amount") = .int (am i))
+    (hr : ∀ i, i < n → lookup c.fields (joinPath (elemPath p i) "RDFIIdentification") = .str (r i))
+    (hc : ∀ i, i < n → rdfiContribution c (r i) = some (hv i))
+    (hcn : ∀ i, i < n → advRecords c (elemPath p i) = some (cnt i))
+    (hflag : hasFlag c "recv" "UnequalAddendaCounts" = false)
+    (hbad : tcr ≠ ((List.range n).map (fun i => advCredit (tc i) (am i))).sum ∨
+            tdb ≠ ((List.range n).map (fun i => advDebit (tc i) (am i))).sum ∨
+            e ≠ leastSignificantDigits (((List.range n).map hv).sum) 10 ∨
+            k ≠ ((List.range n).map cnt).sum) :
+    run c v_Batch_verify ≠ .accept := by
+  intro ha
+  obtain ⟨h1, h2, h3, h4⟩ := accepted_adv_batch c hp cp p n tc am r hv cnt tcr tdb e k hH hsec hC hcr hdb he hk hE ht ham hr hc hcn ha
+  rcases hbad with h | h | h | h
+  · exact h h1
+  · exact h h2
+  · exact h h3
+  · exact h (h4 hflag)
 
 /-- non-vacuity, by evaluation: the sample IAT batch with one digit of its control hash changed is refused by the
 translated `IATBatch.verify`, with the error naming the field (a test on one batch, not the theorem) -/
